@@ -12,8 +12,9 @@ CLAIMED = {
         technique="deterministic simulation: scheduler-owned set-iteration orders inside the Hopcroft-Karp "
                   "matcher (SimSet seam) + real PYTHONHASHSEED interpreters, value checked against enumeration/"
                   "reference min-max matching model, minimised replayable case files",
-        text="Seeded search over (diagram pair x iteration order of every str-keyed set in the matcher x warnings "
-             "filter x input representation); every evaluation compared with a definition-level enumeration "
+        text="Seeded search over (diagram pair x short call history in the same process x iteration order of every "
+             "str-keyed set in the matcher x warnings filter x input form: f64/f32/i64/i32/u16/u8 arrays, views, "
+             "Fortran order, nested lists); every evaluation compared with a definition-level enumeration "
              "(sizes <= 4) or an independent threshold-search reference, and all orders/hash seeds must return "
              "the bit-identical value. Exploration: evidence, not proof.",
         note="Trusts numpy/scipy, my reference matcher (cross-checked against enumeration on every small case), and "
@@ -23,7 +24,8 @@ CLAIMED = {
         technique="deterministic simulation: scheduler-owned set-iteration orders (SimSet) + real PYTHONHASHSEED "
                   "interpreters; every returned matching validated as a certificate (coverage, row costs, max/sum == "
                   "distance, same distance without matching under an independent order)",
-        text="Seeded search over (finite diagram pair x set order x representation). The bottleneck matching varies "
+        text="Seeded search over (finite diagram pair x call history x set order x input form incl. unsigned integers). "
+             "The bottleneck matching varies "
              "with the order, so it is re-validated under every simulated order and real hash seed; no tie-break is "
              "assumed. The Wasserstein half is the fault-free control (deterministic solver). Exploration.",
         note="Trusts my cost formulas and numpy; Wasserstein cross costs compared with the sqrt(eps) tolerance of DESIGN.md 3."),
@@ -31,7 +33,9 @@ CLAIMED = {
         design="4/C07", engine="order",
         technique="deterministic simulation: each side of each metric/invariance law evaluated under its own "
                   "scheduler-owned set order or its own real PYTHONHASHSEED interpreter; metamorphic oracles",
-        text="Seeded search over diagram triples up to 60 (quick) / 300 (thorough) points; ten laws from the statement, "
+        text="Seeded search over diagram triples up to 60 (quick) / 300 (thorough) points, with infinite-death rows, "
+             "long chains of 300-800 points, and the caller's arrays reused across all laws of a case; ten laws from "
+             "the statement, "
              "bottleneck clauses exact or rel 1e-12, Wasserstein clauses with the documented tolerance. Exploration.",
         note="Laws are necessary conditions; optimality itself is C01's oracle. Wasserstein tolerance is 1e-6*(M+N)*max|coord|."),
     "C05": dict(
@@ -39,7 +43,8 @@ CLAIMED = {
         technique="deterministic simulation: the global NumPy RNG consumed by the mGH upper-bound heuristic is replaced "
                   "by a scheduler-owned generator (uniform/degenerate/sticky/real-seeded draw schedules); bounds checked "
                   "against an exact branch-and-bound mGH reference",
-        text="Seeded search over (connected graph pair x RNG draw schedule x mapping_sample_size_order); lower <= exact "
+        text="Seeded search over (connected graph pair up to 10 vertices with exact reference, a thin tail up to 220 "
+             "vertices under the size-free clauses x RNG draw schedule x mapping_sample_size_order); lower <= exact "
              "<= upper, multiples of 1/2, isomorphic => 0, with exact 2*mGH by branch-and-bound over all maps (validated "
              "against flat enumeration for <= 4 vertices). Exploration.",
         note="Exact reference practical to about 9 vertices; larger graphs only get the size-free clauses."),
@@ -48,8 +53,9 @@ CLAIMED = {
         technique="deterministic simulation: scheduler-owned RNG stream shared across all pairs of a collection call, "
                   "scheduler-chosen warnings filter, representation/relabelling swarm; exact mGH reference incl. "
                   "largest-component fallback",
-        text="Seeded search over representations (list/dense/CSR/CSC/COO x fill x dtype), relabellings, collections of "
-             "2..5 graphs and disconnected graphs under every RNG mode: identical lower bounds for identical labellings, "
+        text="Seeded search over representations (list/dense/CSR/CSC/COO x fill x dtype incl. int8/uint8 and stored "
+             "zeros), relabellings, collections of 2..12 graphs given as list, tuple or one 3-D array, and disconnected "
+             "graphs under every RNG mode: identical lower bounds for identical labellings, "
              "valid brackets everywhere, symmetric zero-diagonal matrices, warning + largest component. Exploration.",
         note="Ties among largest components accept any of them; bool dtype only for lists/dense arrays."),
     "C12": dict(
